@@ -463,6 +463,7 @@ inductive Rd (α : Type) where
   | ok (a : α) (rest : Bytes)
   | err
   | unm
+  | fuel     -- the fuel of a loop ran out (never happens: theorem `decode_total`)
 deriving Repr
 
 /-- skip the value of an unknown key (`IgnoredAny`): scalars only, containers are unmodelled -/
@@ -574,7 +575,7 @@ def readVal (bs : Bytes) : Rd CVal :=
 
 /-- elements of the `values` array, positioned before an element (fuel = remaining length) -/
 def readVals : Nat → Bytes → Rd (List CVal)
-  | 0, _ => .err
+  | 0, _ => .fuel
   | fuel+1, bs =>
     match skipWs bs with
     | [] => .err
@@ -583,6 +584,7 @@ def readVals : Nat → Bytes → Rd (List CVal)
         match readVal r with
         | .err => .err
         | .unm => .unm
+        | .fuel => .fuel
         | .ok v r1 =>
           match skipWs r1 with
           | [] => .err
@@ -593,6 +595,7 @@ def readVals : Nat → Bytes → Rd (List CVal)
               | .ok vs r3 => .ok (v :: vs) r3
               | .err => .err
               | .unm => .unm
+              | .fuel => .fuel
             else .err
       else if b.toNat = 91 then .unm                      -- enum given as a sequence
       else .err
@@ -630,6 +633,7 @@ def readNumField (cur : Option Nat) (max : Nat) (set : Nat → Acc) (bs : Bytes)
     | .ok v r => .ok (set v) r
     | .err => .err
     | .unm => .unm
+    | .fuel => .fuel
 
 /-- value of member `key` (after `:` and whitespace) -/
 def readField (key : Bytes) (a : Acc) (bs : Bytes) : Rd Acc :=
@@ -645,14 +649,16 @@ def readField (key : Bytes) (a : Acc) (bs : Bytes) : Rd Acc :=
       | .ok vs r => .ok { a with values := some vs } r
       | .err => .err
       | .unm => .unm
+      | .fuel => .fuel
   else match skipScalar bs with
     | .ok _ r => .ok a r
     | .err => .err
     | .unm => .unm
+    | .fuel => .fuel
 
 /-- members of the top-level object, positioned before a key (fuel = remaining length) -/
 def readMembers : Nat → Acc → Bytes → Rd Acc
-  | 0, _, _ => .err
+  | 0, _, _ => .fuel
   | fuel+1, a, bs =>
     match tok 34 bs with
     | none => .err
@@ -666,6 +672,7 @@ def readMembers : Nat → Acc → Bytes → Rd Acc
           match readField key a (skipWs r2) with
           | .err => .err
           | .unm => .unm
+          | .fuel => .fuel
           | .ok a' r3 =>
             match skipWs r3 with
             | [] => .err
@@ -694,6 +701,7 @@ def parseSortJson (bs : Bytes) : Dec SortCursor :=
         | .ok a rest => finishSort a rest
         | .err => .error .json
         | .unm => .unmodelled
+        | .fuel => .error .fuel
     else if b.toNat = 91 then .unmodelled                  -- struct given as a sequence
     else .error .json
 
@@ -813,6 +821,20 @@ def sawCursor (matched : List κ) : Option (Cur κ) → Bool
   | none => true
   | some c => matched.any (fun k => keyEq lt k c.key)
 
+/-- `cursor_returned` -/
+def curReturned : Option (Cur κ) → Nat
+  | none => 0
+  | some c => c.returned
+
+/-- the tail of `search`: `top` = the `limit+1` best remaining hits, sorted -/
+def pageOf (top : List κ) (limit returned total : Nat) : Except PageErr (Resp κ) :=
+  if top.length > limit then
+    match (top.take limit).getLast? with
+    | some k => .ok { hits := top.take limit,
+                      next := some { key := k, returned := min (returned + limit) u32Max }, total := total }
+    | none => .ok { hits := top.take limit, next := none, total := total }   -- limit = 0 (rejected earlier)
+  else .ok { hits := top, next := none, total := total }
+
 /-- One request.  `matched` = keys of all live matching documents (segment order);
 `skipped` = number of after-cursor documents a pruning executor never evaluated (0 for
 `execution: "bm25"` and for every non-default sort).  Mirrors: cursor test, `saw_cursor`,
@@ -821,22 +843,11 @@ def sawCursor (matched : List κ) : Option (Cur κ) → Bool
 `total_hits_estimate = total_matches + cursor_returned`. -/
 def page (matched : List κ) (cur : Option (Cur κ)) (limit : Nat) (skipped : Nat := 0) :
     Except PageErr (Resp κ) :=
-  let returned := match cur with
-    | none => 0
-    | some c => c.returned
-  if returned > maxCursorAdvance then .error .advance
+  if curReturned cur > maxCursorAdvance then .error .advance
   else if !sawCursor lt matched cur then .error .stale
   else
-    let cand := afterCursor lt matched cur
-    let top := (sortKeys lt cand).take (limit + 1)
-    let total := (cand.length - skipped) + returned
-    if top.length > limit then
-      let hits := top.take limit
-      match hits.getLast? with
-      | some k => .ok { hits := hits, next := some { key := k, returned := min (returned + limit) u32Max },
-                        total := total }
-      | none => .ok { hits := hits, next := none, total := total }    -- limit = 0 (rejected earlier)
-    else .ok { hits := top, next := none, total := total }
+    pageOf ((sortKeys lt (afterCursor lt matched cur)).take (limit + 1)) limit (curReturned cur)
+      (((afterCursor lt matched cur).length - skipped) + curReturned cur)
 
 /-- follow `next` until it is absent; `none` = some request failed -/
 def walkPages (matched : List κ) (limit : Nat) : Nat → Option (Cur κ) → Option (List (Resp κ))
